@@ -70,7 +70,7 @@ MIN_HITS = {
         'mon:download': 3000, 'mon:decompress': 2500, 'mon:load_split': 600,
         'oracle:kill-image': 800, 'oracle:exception-image': 1500, 'oracle:rename-instant': 300,
         'oracle:later-call': 1500, 'oracle:reuse-no-network': 1200, 'oracle:real-kill': 6,
-        'fired:crash': 800, 'fired:read': 300, 'fired:stderr': 60, 'fired:write': 100, 'fired:srcread': 20, 'fired:status': 20,
+        'fired:crash': 800, 'fired:read': 300, 'fired:stderr': 60, 'fired:write': 100, 'big-payload-scenario': 10, 'fired:srcread': 20, 'fired:status': 20,
         'fired:get': 10, 'fired:rename': 10, 'fired:open': 10, 'stale-planted': 150, 'seq:len2': 30, 'seq:len3': 30,
         'load_split:crash-fired': 40, 'oracle:invalid-download': 6,
     },
@@ -1135,6 +1135,28 @@ def _run(ctx, env, scratch, downloads, cifar100, sqlite_fd):
         scen.append((op, st, [f], False))
   for cid, (op, st, faults, pre) in ctx.enum('single', scen):
     run_scenario(ctx, env, op, scratch, st, faults, preseed=pre)
+
+  # ---- (1a) a payload of more than 16 MiB (any size threshold in the transfer code: pre-allocation, chunking, progress): a
+  #      selection of faults in the middle of the transfer, each followed by a healthy call and a reuse call
+  big = make_payload(ctx.seed + 1, (1 << 24) + 3 * BLOCK + 5, 'rand')
+  bop = DownloadOp(downloads, env, f'{len(big)}B-big', big)
+  bscen = []
+  if True:
+    ctx.cur_case = f'record/{bop.name}:{bop.label}'
+    bsp = record_space(ctx, env, bop, scratch)
+    ctx.cur_case = None
+    if bsp is not None:
+      nb, ne = bsp['reads'], len(bsp['events'])
+      bscen = [[]] + [[{'kind': 'read', 'i': i, 'exc': e}] for i, e in ((0, 'OSError'), (3, 'urllib3.ProtocolError'), (nb // 2, 'OSError'),
+                                                                    (nb - 1, 'requests.ConnectionError'))]
+      bscen += [[{'kind': 'write', 'j': j, 'mode': m}] for j, m in ((2, 'torn'), (nb // 2, 'kill'), (nb - 1, 'before'))]
+      bscen += [[{'kind': 'crash', 'k': k}] for k in (ne // 3, (2 * ne) // 3, ne - 2)]
+      bscen += [[{'kind': 'read', 'i': 5, 'exc': 'OSError'}, {'kind': 'read', 'i': nb - 2, 'exc': 'OSError'}]]
+      if not quick:
+        bscen += [[{'kind': 'read', 'i': i, 'exc': 'OSError'}] for i in range(1, nb, 7)]
+  for cid, faults in ctx.enum('bigpayload', bscen):
+    ctx.count('big-payload-scenario')
+    run_scenario(ctx, env, bop, scratch, None, faults)
 
   # ---- (1b) a server that sends NO content-length header: whatever the call does (today it raises KeyError and
   #      publishes nothing), a connection error at any block must never publish a truncated file
